@@ -345,11 +345,11 @@ var plans = map[string]*propertyPlan{
 		}),
 		Explain: "Correctable is verified as a monitor (invariant over level, done, the watcher slots and the closed-ness of their channels, re-established at every unlock); set's two loops carry quantified invariants (no double close, every watcher at or below the level released); the handler loop is proved to publish exactly the quorum function's level and value whenever the level rises, before it blocks again, to complete exactly once under the three stated conditions and never to lower a level. The typed Get accessors of the regenerated stubs are verified panic-free for every state of the raw object (no reply yet, error, reply)."},
 	"C12": {ID: "C12", Level: "other", Pkgs: rootPkg, Extra: modeScan("C12"),
-		Explain: "Close visits every pooled node (closeNodeConns over a snapshot), cancels before closing the connection and cannot panic for any option; sender, receiver and reconnect block only on points guarded by the channel's parent context (or external stream calls on contexts derived from it); enqueue after Close answers the request instead of queuing when only the closed branch is enabled, and never panics; one-way calls are released by their own context."},
+		Explain: "Close visits every pooled node (closeNodeConns over a snapshot), cancels before closing the connection and cannot panic for any option; sender, receiver and reconnect block only on points guarded by the channel's parent context (or external stream calls on contexts derived from it); enqueue after Close answers the request instead of queuing when only the closed branch is enabled, and never panics; one-way calls are released by their own context. Construction: default options, every manager option applied once, in order, to the manager's own record; the two ends of the send queue are confined to enqueue (send) and sender/failQueued (receive)."},
 	"C13": {ID: "C13", Level: "proof", Pkgs: rootPkg,
 		Explain: "The decoder is proved panic-free for an unconstrained byte slice (every type assertion, slice expression, nil dereference and interface call on its paths), relative to trusted protobuf contracts; it is proved to create the message of the method's input type for requests and output type for responses, to look the method up exactly once under the decoded name, and to reject unknown message kinds; abstract-bytes round trip."},
 	"C14": {ID: "C14", Level: "proof", Pkgs: rootAndDev,
-		Explain: "Configuration constructors verified against quantified contracts: every result is non-nil, strictly sorted by id (hence duplicate-free) and non-empty; operands (slices, id lists, address lists) are provably unmodified, with the precise in-place/reallocating append model; And removes duplicates through its id set, Except/WithoutNodes keep exactly the ids not removed (witness arrays for both directions), WithNodeIDs resolves exactly registered ids to the pooled objects or fails, WithNodeList/WithNodeMap yield for every given address a node carrying its resolved address and reject id/address mismatches; AddNode/Node keep the pool's lookup consistent (whole-map frame). Sorting relies on sort.Sort's trusted contract instantiated through the proved Len/Less/Swap (C19)."},
+		Explain: "Configuration constructors verified against quantified contracts: every result is non-nil, strictly sorted by id (hence duplicate-free) and non-empty; operands (slices, id lists, address lists) are provably unmodified, with the precise in-place/reallocating append model; And removes duplicates through its id set, Except/WithoutNodes keep exactly the ids not removed (witness arrays for both directions), WithNodeIDs resolves exactly registered ids to the pooled objects or fails, WithNodeList/WithNodeMap yield for every given address a node carrying its resolved address and reject id/address mismatches; AddNode/Node keep the pool's lookup consistent (whole-map frame). Sorting relies on sort.Sort's trusted contract instantiated through the proved Len/Less/Swap (C19). NewRawConfiguration is verified by closed-world dispatch over every option type (each against its own contract); WithNewNodes resolves its nested option and unites exactly its result with the old configuration; every constructor frames everything but the pool's own array and fresh arrays; the static wrappers bundled into generated packages (cmd/protoc-gen-gorums/dev) agree with the raw configuration position by position and refuse an empty configuration; a new manager starts with an empty pool."},
 	"C15": {ID: "C15", Level: "other", Pkgs: rootPkg, SweepsAll: true, Extra: combine(modeScan("C15"), sweepModes("C15")),
 		Explain: "Ownership discipline: every mutable field of channel, RawManager, Correctable, Async (and the atomic flags) has a declared mode - guarded_by(lock), atomic, immutable after publication, or single writer - and every access in every function of the package is checked against it with the lockset tracked through the symbolic execution (objects not yet published are exempt). Objects that are not safe for concurrent use (the per-channel random source) are confined to named functions; a guarded slice or map must not be returned, re-sliced or not. If every access respects its mode no two conflicting accesses are unordered. Silent on gRPC/protobuf internals."},
 	"C16": {ID: "C16", Level: "other", Pkgs: []string{modPath + "/cmd/protoc-gen-gorums/gengorums"}, Gen: true, GenToolsOnly: true,
